@@ -746,7 +746,9 @@ impl<'a> G<'a> {
             2 => f.evt_obj.clone(),
             3 if !self.s.added.is_empty() => self.r.pick(&self.s.added).clone(),
             4 => NodeId::null(),
-            5 => NodeId::new(0, 900000 + self.r.below(10) as u32),
+            // unknown nodes of the generated requests: an id range of their own — the `m<k>` tokens of the
+            // modelled ops (900000+k) can become real nodes when an `addnode` requests them as new id
+            5 => NodeId::new(0, 960000 + self.r.below(10) as u32),
             6 => NodeId::new(*self.r.pick(&[1u16, 2, 7, 65535]), "strïng<id>"),
             7 => NodeId::new(self.r.below(4) as u16, ByteString::from(self.r.bytes(5))),
             _ => NodeId::new(self.r.below(70000) as u16, self.r.next() as u32),
@@ -1472,7 +1474,7 @@ impl<'a> G<'a> {
             "delnodes" => DeleteNodesRequest {
                 request_header: h,
                 nodes_to_delete: self.list(|g| DeleteNodesItem {
-                    node_id: if !g.s.extra.is_empty() && g.r.chance(2, 3) { g.r.pick(&g.s.extra).clone() } else { NodeId::new(0, 900000 + g.r.below(10) as u32) },
+                    node_id: if !g.s.extra.is_empty() && g.r.chance(2, 3) { g.r.pick(&g.s.extra).clone() } else { NodeId::new(0, 960000 + g.r.below(10) as u32) },
                     delete_target_references: g.r.chance(1, 2),
                 }),
             }
@@ -1482,7 +1484,7 @@ impl<'a> G<'a> {
                 references_to_delete: self.list(|g| {
                     let (s, t, rt) = (
                         // never a standard node: the standard address space is shared by all cases
-                        if !g.s.extra.is_empty() && g.r.chance(2, 3) { g.r.pick(&g.s.extra).clone() } else { NodeId::new(0, 900000 + g.r.below(10) as u32) },
+                        if !g.s.extra.is_empty() && g.r.chance(2, 3) { g.r.pick(&g.s.extra).clone() } else { NodeId::new(0, 960000 + g.r.below(10) as u32) },
                         g.node(),
                         NodeId::new(0, *g.r.pick(&[37u32, 38, 39, 41])),
                     );
